@@ -55,7 +55,7 @@ fn canon(v: &Value) -> Value {
 
 /// The rules of the property, in Rust.  Used only to judge the replay of a recorded history (a rejection of the
 /// trace validation), where no TLC-computed expectation is at hand; the primary oracle is FrameMatch.tla.
-fn rule(i: &Value, frames: &[Value], uq: &[u64]) -> Value {
+pub fn rule(i: &Value, frames: &[Value], uq: &[u64]) -> Value {
     use std::collections::BTreeSet;
     let qs = |f: &Value| -> BTreeSet<u64> { f["qubits"].as_array().unwrap().iter().map(|q| q.as_u64().unwrap()).collect() };
     let list = |k: &str| -> BTreeSet<u64> { i[k].as_array().unwrap().iter().map(|q| q.as_u64().unwrap()).collect() };
